@@ -226,3 +226,79 @@ def _ready(name, edges, register, props):
 
 IS_SETUP_READY = _ready("is_setup_ready", "_setup_nodes", "_dropped_setup_nodes", ["C01", "C02", "C08"])
 IS_CLEANUP_READY = _ready("is_cleanup_ready", "_cleanup_nodes", "_dropped_cleanup_nodes", ["C02", "C05", "C08"])
+
+
+# ---------------------------------------------------------------- default_clean_decision (C05, C08)
+def rev(o):
+    p = f"{o}.object_typed_params(self.params)"
+    return (f"(({p}.get('unset_mode_images', {p}['unset_mode'])[0] == 'f') or "
+            f"({p}.get('unset_mode_vms', {p}['unset_mode'])[0] == 'f'))")
+
+
+def valid_modes(o):
+    p = f"{o}.object_typed_params(self.params)"
+    return (f"('unset_mode' in {p} and len({p}['unset_mode']) > 0 and "
+            f"('unset_mode_images' not in {p} or len({p}['unset_mode_images']) > 0) and "
+            f"('unset_mode_vms' not in {p} or len({p}['unset_mode_vms']) > 0))")
+
+
+def wf_ready(n):
+    return (f"({n} is not None and wf_map({n}._cleanup_nodes) and {n}._dropped_cleanup_nodes is not None and "
+            f"forall(keys_of({n}._cleanup_nodes), lambda c: c is not None and 'name' in c.params) and "
+            f"forall({n}.results, lambda r: r is not None) and 'name' in {n}.params)")
+
+
+CLEAN_OVERRIDES = dict(READY_OVERRIDES)
+CLEAN_OVERRIDES["TestNode.is_cleanup_ready"] = by_contract(IS_CLEANUP_READY)
+
+RELEVANT = "(worker.swarm_id == 'localhost' or worker.swarm_id in pw.id)"
+OWN_PW = f"(({FLAT}) or pw.id in self.params['name'])"
+
+
+def node_ok(n):
+    return f"({n}.is_cleanup_ready(pw) and not exists({n}.results, lambda r: r['status'].lower() == 'unknown'))"
+
+
+B = "self._bridged_nodes"
+PW_OK = (f"(({node_ok('self')}) if {OWN_PW} else "
+         f"forall(range(0, len({B})), lambda j: implies(pw.id in {B}[j].params['name'], {node_ok(B + '[j]')})))")
+# class invariant used by the clean decision: a worker has at most one copy among the bridged nodes
+ONE_COPY = (f"forall(self.shared_involved_workers, lambda pw: forall([INT, INT], lambda j, k: implies("
+            f"0 <= j and j < k and k < len({B}) and pw.id in {B}[j].params['name'], pw.id not in {B}[k].params['name'])))")
+HAS_COPY = f"({OWN_PW} or exists(range(0, len({B})), lambda j: pw.id in {B}[j].params['name']))"
+REVERSIBLE = f"exists(self.objects, lambda o: {rev('o')})"
+
+DEFAULT_CLEAN = Contract(
+    target=f"{NODE}::TestNode.default_clean_decision",
+    params={"self": Ref("TestNode"), "worker": Ref("TestWorker")},
+    requires=WF_NODE + [WF_OBJECTS] + VALID_PARAMS + [
+        f"forall(self.objects, lambda o: {valid_modes('o')})",
+        wf_ready("self"), f"forall({B}, lambda b: {wf_ready('b')})",
+        "forall(self.shared_involved_workers, lambda w: w is not None)", ONE_COPY,
+    ],
+    overrides=CLEAN_OVERRIDES,
+    stubs=BF_STUB,
+    raises={
+        "RuntimeError": f"not {EARLY} and not ({OWN})",
+        "ValueError": None,      # an involved worker of the swarm filter without a bridged copy of the node
+        "KeyError": None, "ParamNotFound": None,   # from is_finished(worker, -1) on unknown swarms / missing pool_scope
+    },
+    loops={
+        0: {"invariants": [f"forall(range(0, _i), lambda j: not {rev('self.objects[j]')})"],
+            "kinds": {"is_reversible": BOOL, "object_params": Ref("Params")}},
+        1: {"invariants": [f"forall(_seen, lambda pw: implies({RELEVANT}, {PW_OK}))"],
+            "kinds": {"picked_node": Ref("TestNode"), "test_statuses": Seq(STR), "node": Ref("TestNode")}},
+        2: {"invariants": [f"forall(range(0, _i), lambda k: picked_worker.id not in {B}[k].params['name'])"],
+            "kinds": {"picked_node": Ref("TestNode")}},
+    },
+    ensures=[
+        ("early_false", f"implies({EARLY}, result == False)"),
+        ("irreversible_true", f"implies(not {EARLY} and not {REVERSIBLE}, result == True)"),
+        ("guard", f"implies(not {EARLY} and {REVERSIBLE} and result, "
+                  f"forall(self.shared_involved_workers, lambda pw: implies({RELEVANT}, {PW_OK})) and "
+                  f"self.is_finished(worker, -1))"),
+    ],
+    result_kind=BOOL,
+    frame=[],
+    props=["C05", "C08"],
+)
